@@ -345,6 +345,24 @@ func (d *Datastore) lowlevelTransactionSet(ctx context.Context, transaction *typ
 			}
 		}
 
+		// the cache does not replace an entry of the same path, priority and owner, it keeps the superseded
+		// value next to the new one (the keys differ in their timestamp). Hence remove the entries that are
+		// about to be rewritten.
+		if len(updatesOwner) > 0 {
+			rewritten := make([][]string, 0, len(updatesOwner))
+			for _, u := range updatesOwner {
+				rewritten = append(rewritten, u.GetPath())
+			}
+			err = d.cacheClient.Modify(ctx, d.Name(), &cache.Opts{
+				Store:    cachepb.Store_INTENDED,
+				Owner:    intent.GetName(),
+				Priority: intent.GetPriority(),
+			}, rewritten, nil)
+			if err != nil {
+				return nil, fmt.Errorf("failed updating the intended store for %s: %w", d.Name(), err)
+			}
+		}
+
 		// modify intended store per intent
 		err = d.cacheClient.Modify(ctx, d.Name(), &cache.Opts{
 			Store:    cachepb.Store_INTENDED,
